@@ -1,4 +1,5 @@
 import CentrifugeVerif.Proofs.HistoryHubBroker
+import CentrifugeVerif.Proofs.HistoryHubSweep
 /-!
 # C17 — Memory stream broker implements bounded-stream history semantics
 
@@ -273,6 +274,19 @@ theorem epochs_below_counter (metaTTL : Nat) (ops : List Op) (x : String) (s : M
   have hi := run_inv metaTTL ops
   have := hi.2.1 x (absS s) (by simp [Hub.abs, hst])
   exact ⟨this.2.1, this.2.2⟩
+
+/-! ## the sweepers -/
+
+/-- the two sweeper goroutines wake up at the same instants and take the hub lock in an unspecified
+order: the resulting hub state is the same either way (so the model's fixed order loses nothing) -/
+theorem sweeper_order_irrelevant (h : Hub) (n : Nat) :
+    (h.sweepExpire n).sweepRemove n = (h.sweepRemove n).sweepExpire n := sweeps_commute h n
+
+/-- per channel, a wake-up at second `n'` subsumes any earlier wake-up at `n ≤ n'` -/
+theorem sweep_coalesce (n n' : Nat) (hn : n ≤ n') (c : ChanState) :
+    sweepExpChan n' (sweepExpChan n c) = sweepExpChan n' c ∧
+      sweepRemChan n' (sweepRemChan n c) = sweepRemChan n' c :=
+  ⟨sweepExpChan_coalesce n n' hn c, sweepRemChan_coalesce n n' hn c⟩
 
 /-! ## non-vacuity and counter-witnesses -/
 
